@@ -1,6 +1,6 @@
 ------------------------------ MODULE MC_Names ------------------------------
 EXTENDS Names, Json
 MC_Vars == { << "HH", "F" >>, << "BUS", "F" >>, << "GOV", "T" >>, << "GOOD", "SUP_GOOD" >> }
-MC_Places == {"sector_eq", "term", "supplier_rule", "global"}
+MC_Places == {"sector_eq", "term", "supplier_rule", "global", "own_generate"}
 Emit == (phase = "final") => PrintT(<< "BEH", ToJson([requests |-> asked]) >>)
 =============================================================================
